@@ -617,10 +617,83 @@ func C05(c *core.Ctx) {
 			if _, isRoot := core.FieldOf(node, "root"); isRoot && fn.Name() == "newFibStrategyTableTree" {
 				okNode = true
 			}
+			// inside fillTreeToPrefixEnc itself: the node named is the one the function goes
+			// on to return, and the name is the one it was asked for
+			if id := core.FuncID(fn); id.Recv == "FibStrategyTree" && core.BaseName(fn) == "fillTreeToPrefixEnc" && len(fn.Params) == 2 && core.Same(v, fn.Params[1]) {
+				fr := core.MustFollow(fn, core.After(in), func(x ssa.Instruction) bool {
+					r, isR := x.(*ssa.Return)
+					return isR && len(r.Results) == 1 && core.Strip(r.Results[0]) == node
+				}, func(x ssa.Instruction) bool {
+					// any other return ends the path unsuccessfully: make it a non-B, non-stop
+					return false
+				})
+				okNode = fr.OK
+			}
 			c.Decide(okNode && !core.InLoop(in.Block()), "R5.6", "tree-entry-named-by-own-prefix:"+core.FuncName(fn), c.Pos(in), "entry.name is set on the node returned by fillTreeToPrefixEnc(name) for that same name", core.FuncName(fn)+" names a tree node with a name that is not the node's own prefix (e.g. intermediate nodes created for a longer name): listings report next hops and strategies under the wrong prefix")
 		})
 	}
-	c.Floor("R5.6", "stores to a tree entry's name", nName, 3)
+	c.Floor("R5.6", "stores to a tree entry's name", nName, 2)
+	// and every node that is given next hops or a strategy has its name: the node
+	// fillTreeToPrefixEnc(name) hands out is named — by fillTreeToPrefixEnc on every path to
+	// its return, or by the caller right after the call — unless it already carried one
+	// (a node first created as an intermediate node of a longer prefix has none)
+	if fill := c.Fn("R5.6", "fw/table", "FibStrategyTree", "fillTreeToPrefixEnc"); fill != nil {
+		isNameStoreOn := func(node ssa.Value) func(ssa.Instruction) bool {
+			return func(in ssa.Instruction) bool {
+				fa, _, ok := storeToField(in, "baseFibStrategyEntry", "name")
+				if !ok {
+					return false
+				}
+				outer, isEmb := core.Strip(fa.X).(*ssa.FieldAddr)
+				return isEmb && (core.Strip(outer.X) == core.Strip(node) || core.Same(outer.X, node))
+			}
+		}
+		named := func(node ssa.Value) *core.Atom {
+			return &core.Atom{Name: "node.name!=nil", Match: func(cond ssa.Value) (int, int) {
+				op, x, y, ok := core.Cmp(cond)
+				if !ok || (op != token.EQL && op != token.NEQ) || !core.IsNilConst(y) {
+					return 0, 0
+				}
+				if b, okF := core.FieldOfDeep(x, "name"); okF && (core.Strip(b) == core.Strip(node) || core.Same(b, node)) {
+					return core.Iff(op == token.NEQ)
+				}
+				return 0, 0
+			}}
+		}
+		inFill := true
+		nRet := 0
+		core.Instrs(fill, func(in ssa.Instruction) {
+			r, ok := in.(*ssa.Return)
+			if !ok || len(r.Results) != 1 || core.IsNilConst(r.Results[0]) {
+				return
+			}
+			nRet++
+			node := r.Results[0]
+			cut, _ := core.CutEdges(fill, core.Lit{A: named(node), Want: true})
+			if core.ReachInstr(fill, r, cut, isNameStoreOn(node)) != nil {
+				inFill = false
+			}
+		})
+		inCallers := true
+		nCalls := 0
+		for _, cs := range p.Callers(fill) {
+			caller := cs.Parent()
+			if m := core.BaseName(caller); m != "InsertNextHopEnc" && m != "SetStrategyEnc" {
+				continue
+			}
+			nCalls++
+			node := cs.Value()
+			if node == nil {
+				inCallers = false
+				continue
+			}
+			cut, _ := core.CutEdges(caller, core.Lit{A: named(node), Want: true})
+			if !core.MustFollowCut(caller, core.After(cs), isNameStoreOn(node), nil, cut).OK {
+				inCallers = false
+			}
+		}
+		c.Decide((inFill && nRet > 0) || (inCallers && nCalls > 0), "R5.6", "tree-entry-with-payload-is-named", p.Pos(fill.Pos()), "the node handed out by fillTreeToPrefixEnc(name) is named on every path (unless it already has a name)", "a tree node can receive next hops or a strategy while its name is still nil (a node first created as an intermediate node of a longer prefix): listings report that entry under '/' and the two FIB implementations disagree")
+	}
 
 	// ---- R5.4 tree descent compares the right component
 	for _, fnm := range []string{"findLongestPrefixEntryEnc", "findExactMatchEntryEnc"} {
